@@ -76,12 +76,12 @@ CLAIMS.update({
                 'C10_rwnd_after_send (after a non-probe send in-flight <= last advertised window), C10_mtu_bound (every retransmission / new-data / fast-retransmission '
                 'packet of a gather is non-empty and marshals to <= MTU, from ANY state), C10_fragment_bound (a chunk of <= maxPayloadSizeForMTU bytes fits behind the '
                 'common header; packetize emits fragments of 1..maxPayloadSize bytes adding up to the message), C10_cwnd_floor (MTU <= cwnd), C10_loss_response '
-                '(T3: ssthresh = max(cwnd/2, 4 MTU), cwnd = max(MTU, MinCwnd); entry to fast recovery: same ssthresh formula, cwnd = max(ssthresh, MinCwnd), once). '
+                '(T3: ssthresh = max(cwnd/2, 4 MTU), cwnd = max(MTU, MinCwnd); entry to fast recovery: same ssthresh formula, cwnd = max(ssthresh, MinCwnd), once), '
+                'C10_retransmit_window (T3 retransmissions of one gather carry at most min(cwnd, rwnd) user bytes, or are the single probe chunk). '
                 'Plus the executable predicate P_C10 on the implementation outputs after every op, and e2e transfer runs.',
         'note': SENDER_NOTE + ' "Cut" is formalised as the RFC 4960 7.2.3 formula (a literal "never larger than before" is false by design below 4 MTU). Loss signals = T3 expiry and '
                 'third miss indication outside fast recovery; RACK/PTO marks do not touch cwnd in this implementation (oracle inputs). Window theorems assume the ghost flag '
-                'wrapWin is down: no uint32 wrap (< 2^32 bytes in flight, cwnd + increment < 2^32). Retransmissions staying within min(cwnd, rwnd) (C10_retransmit_window of the '
-                'design) is not proved: only their MTU bound and the model/implementation comparison.',
+                'wrapWin is down: no uint32 wrap (< 2^32 bytes in flight, cwnd + increment < 2^32).',
         'technique': 'Lean 4 proof (invariants + induction over op lists with oracle inputs; bv_omega/omega on translator-generated window and size arithmetic) + '
                      'model/implementation differential replay of a direct-driven real Association',
     },
@@ -91,6 +91,7 @@ CLAIMS.update({
                 'C15_no_underflow_partial (onBufferReleased never takes its clamp branch), C15_zero_iff_idle_partial, all three under the hypothesis "a stream stays in the '
                 "association's table while it has data outstanding\" forced by known deviation D9 (C15_D9_witness / C15_underflow_witness decide the failure without it; the D9 witness "
                 'is replayed on the implementation every run), C15_rollback_exact (a write outside established restores buffered amount, SSN and both MID counters, queues nothing), '
+                'C15_sack_atomic (in-flight TSNs stay contiguous, hence a SACK that passes the validation is applied completely: the error returns after the first queue modification are unreachable), '
                 'C15_callback_crossings (callback invocations = downward crossings of the threshold in the per-operation sequence of buffered amounts; one release per stream and SACK), '
                 'C15_callback_unlocked (decided on regenerated control-flow paths of onBufferReleased: Lock, crossing test, copy handler, Unlock, call; and the Unlock/Lock around its only '
                 'call site). Plus the executable predicate P_C15 on the implementation outputs (the harness callback TryLocks the association and stream locks) and e2e runs.',
